@@ -327,16 +327,20 @@ class Mailbox:
         new_folder = await mbox._restore_from_db()
 
         # If this new mbox has `\Noselect` then it is essentially a deleted
-        # mailbox. We will return it but we will not check for new messages and
-        # we will not create a management task.
+        # mailbox. We will return it but we will not check for new messages.
         #
         if r"\Noselect" not in mbox.attributes:
             optional = not (new_folder or r"\Marked" in mbox.attributes)
             async with mbox.mailbox.lock_folder():
                 await mbox.check_new_msgs_and_flags(optional=optional)
-            mbox.mgmt_task = asyncio.create_task(
-                mbox.management_task(), name=f"mbox '{mbox.name}' mgmt task"
-            )
+
+        # Every instantiated mailbox needs its management task, `\Noselect`
+        # or not: commands such as STATUS, APPEND, DELETE queue up on the
+        # mailbox and wait for that task to let them run.
+        #
+        mbox.mgmt_task = asyncio.create_task(
+            mbox.management_task(), name=f"mbox '{mbox.name}' mgmt task"
+        )
         return mbox
 
     ####################################################################
@@ -2926,10 +2930,14 @@ class Mailbox:
                 await mbox.commit_to_db()
                 async with mbox.mailbox.lock_folder():
                     await mbox.check_new_msgs_and_flags(optional=False)
-                mbox.mgmt_task = asyncio.create_task(
-                    mbox.management_task(),
-                    name=f"mbox '{mbox.name}' mgmt task",
-                )
+                # The mailbox keeps its management task while it is
+                # `\Noselect`; never run two of them on one queue.
+                #
+                if not hasattr(mbox, "mgmt_task") or mbox.mgmt_task.done():
+                    mbox.mgmt_task = asyncio.create_task(
+                        mbox.management_task(),
+                        name=f"mbox '{mbox.name}' mgmt task",
+                    )
             else:
                 raise MailboxExists(f"Mailbox '{name}' already exists")
 
